@@ -34,7 +34,7 @@ RULE = ('profiles of 3-500 levels, 0-6 extra variables, recognised unit systems,
         'history of 0-7 operations (the first scenarios cycle through every source form and every operation) drawn from append (new or existing variable, own depth grid partly outside the range, unit conversion), extend_profile_deeper (N given or computed), '
         'insert_density (with and without P0), insert_potential_density, insert_buoyancy_frequency; after every operation queries at stored depths, interior points '
         '(incl. next-to-node), points outside the range, as float / list / ndarray and as int / list of ints / integer ndarray / 0, with name lists: all names, shuffled subsets with unknown names, single name, empty list; '
-        'a case is non-trivial when (source, levels, columns, operation history) is new')
+        '2-3 name lists per history, fixed at the start and containing names later operations add (ua/va/wa, planned chemicals, density, theta, N) and unknown names, are queried before the first and after EVERY operation against the independent interpolation of the table as stored then; a case is non-trivial when (source, levels, columns, operation history) is new')
 LEVEL_NOTE = ('theorems over the reals about a hand-written model of get_values / interp1d / the profile operations; the model is tied to the real code by differential '
               'execution on seeded histories (tolerance 1e-11, exact at nodes), not by translation')
 SCRATCH = '/root/scratch/c07'
@@ -81,7 +81,13 @@ class FsolveRecorder:
 def snapshot(p):
     table, names = sp.claimed_table(p)
     f = p.f
-    cache_rows = np.column_stack([np.array(f.x, dtype=float), np.array(f.y, dtype=float).T])
+    if hasattr(f, 'x') and hasattr(f, 'y'):
+        cache_rows = np.column_stack([np.array(f.x, dtype=float), np.array(f.y, dtype=float).T])
+    else:
+        # the interpolant does not expose its node arrays: the copy it was built from (interp_data, sorted as interp1d
+        # would) stands in; its BEHAVIOUR is judged by the queries
+        idata = np.array(p.interp_data, dtype=float)
+        cache_rows = idata[np.argsort(idata[:, 0], kind='mergesort')]
     x = table[:, 0]
     d = np.diff(x)
     return {'table': table, 'names': names, 'zmin': float(p.z_min), 'zmax': float(p.z_max),
@@ -170,7 +176,7 @@ def gen_name_lists(rng, names):
 NEW_NAMES = ['co2', 'h2s', 'dye', 'turbidity', 'ph_x', 'u_x', 'chl']
 
 
-def gen_op(rng, p, snap, built, workdir, force=None):
+def gen_op(rng, p, snap, built, workdir, force=None, plan=None):
     """next operation: (descriptor dict, callable performing it on the real profile, payload for the model)"""
     kind = force or rng.choice(OPS + ['append'])
     names = snap['names']
@@ -182,6 +188,8 @@ def gen_op(rng, p, snap, built, workdir, force=None):
         for _ in range(k):
             if existing and rng.random() < 0.3 and built.route != 'ncdataset':
                 nm = rng.choice(existing)
+            elif plan and rng.random() < 0.7:
+                nm = rng.choice(plan)                    # a name the persistent name lists of this history already ask for
             else:
                 nm = rng.choice(NEW_NAMES) + str(rng.randrange(4))
             if nm in vn:
@@ -317,6 +325,102 @@ def integer_queries(ctx, rng, p, snap, history, after):
                           {'history': history, 'after': after, 'query': {'z': zq, 'names': nl, 'call': how},
                            'with_int': exc if exc is not None else got.tolist(), 'with_float': want.tolist(),
                            'first_stored_depth': zlo, 'last_stored_depth': zhi})
+
+
+def reference_row(snap, z, qnames):
+    """independent clamped linear interpolation of the table as stored NOW: unknown-at-this-moment names -> 0"""
+    names = snap['names']
+    table = snap['table'][np.argsort(snap['table'][:, 0], kind='mergesort')]
+    x = table[:, 0]
+    zc = min(max(z, snap['zlo']), snap['zhi'])
+    i = min(max(bisect.bisect_left(x, zc), 1), len(x) - 1)
+    out = []
+    for nm in qnames:
+        if nm not in names:
+            out.append((0.0, 0.0, 'unknown'))
+            continue
+        col = names.index(nm) + 1
+        if x[i] == zc:
+            out.append((float(table[i, col]), 0.0, 'node'))
+        elif x[i - 1] == zc:
+            out.append((float(table[i - 1, col]), 0.0, 'node'))
+        else:
+            yl, yh = float(table[i - 1, col]), float(table[i, col])
+            w = (zc - float(x[i - 1])) / (float(x[i]) - float(x[i - 1]))
+            out.append(((1.0 - w) * yl + w * yh, tol_abs(yl, yh), 'between'))
+    return out
+
+
+def make_persistent_lists(rng, names, plan):
+    """2-3 name lists fixed for the whole history: names stored now, names later operations will add, unknown names"""
+    future = list(plan) + ['density', 'theta', 'N']
+    lists = []
+    for _ in range(rng.randint(2, 3)):
+        nl = rng.sample(names, rng.randint(1, len(names))) + rng.sample(future, rng.randint(2, len(future))) \
+            + [rng.choice(UNKNOWN), 'never_' + str(rng.randrange(9))]
+        nl = list(dict.fromkeys(nl))
+        rng.shuffle(nl)
+        lists.append({'names': nl, 'unknown_at_first_query': None, 'late': set()})
+    return lists
+
+
+def persistent_queries(ctx, rng, p, snap, history, after, plists):
+    """query the SAME name lists again (scalar and array depths) and compare with the table as stored at this moment"""
+    x = snap['table'][:, 0]
+    n = len(x)
+    zs = [float(x[rng.randrange(n)]), float(x[0]), float(x[-1]), rng.uniform(snap['zlo'], snap['zhi']),
+          rng.uniform(snap['zlo'], snap['zhi']), snap['zlo'] - 3.0, snap['zhi'] + 11.0]
+    for pl in plists:
+        nl = pl['names']                       # the same list object every time
+        if pl['unknown_at_first_query'] is None:
+            pl['unknown_at_first_query'] = set(nm for nm in nl if nm not in snap['names'])
+        newly = set(nm for nm in pl['unknown_at_first_query'] if nm in snap['names'])
+        pl['late'] |= newly
+        ctx.count('pred:persistent-list')
+        answers = []
+        with quiet():
+            try:
+                for z in zs[:4]:
+                    answers.append((z, 'float', np.array(p.get_values(z, nl), dtype=float)))
+                big = np.array(p.get_values(np.array(zs), nl), dtype=float)
+                answers += [(z, 'ndarray', big[i]) for i, z in enumerate(zs)]
+            except Exception as e:
+                ctx.violation('get-values-raised:' + after, 'get_values raised %s: %s' % (type(e).__name__, e),
+                              {'history': history, 'query': {'z': zs, 'names': nl}})
+                continue
+        for z, how, got in answers:
+            ctx.evaluations += 1
+            ref = reference_row(snap, z, nl)
+            for j, nm in enumerate(nl):
+                want, t, kind = ref[j]
+                g = float(got[j]) if got.shape == (len(nl),) else float('nan')
+                if not math.isfinite(want):
+                    continue
+                if kind == 'between':
+                    col = snap['names'].index(nm) + 1
+                    if not np.all(np.isfinite(snap['table'][:, col])):
+                        continue
+                if abs(g - want) <= t or (kind != 'between' and g == want):
+                    if nm in newly:
+                        ctx.count('pred:late-known-name-answered')
+                    continue
+                if kind == 'node':
+                    col = snap['names'].index(nm) + 1
+                    if not np.all(np.isfinite(snap['table'][:, col])):
+                        ctx.count('pred:node-next-to-nonfinite(skipped)')
+                        continue
+                case = {'history': history, 'query': {'z': z, 'names': nl, 'call': how}, 'name': nm, 'got': g, 'expected': want,
+                        'stored_names_now': snap['names'], 'unknown_when_the_list_was_first_queried': sorted(pl['unknown_at_first_query']),
+                        'first_stored_depth': snap['zlo'], 'last_stored_depth': snap['zhi']}
+                if nm in pl['late']:
+                    ctx.violation('name-added-after-first-query-not-answered:' + after,
+                                  'a name that was unknown when this name list was first queried and has been added to the profile since '
+                                  'does not return its interpolated value', case)
+                elif kind == 'unknown':
+                    ctx.violation('unknown-name-not-zero:' + after, 'an unknown name did not yield zero', case)
+                else:
+                    ctx.violation('persistent-list-wrong-value:' + after, 'a repeated query of the same name list does not return the clamped linear '
+                                  'interpolation of the table as stored now', case)
 
 
 def query_state(ctx, rng, p, snap, history, after, lines, pending):
@@ -502,13 +606,17 @@ def _run(ctx, lean_ok, workdir):
             snap = snapshot(p)
             ctx.count('levels:%s' % ('3-9' if snap['table'].shape[0] < 10 else '10-99' if snap['table'].shape[0] < 100 else '100-500'))
             query_state(ctx, rng, p, snap, list(history), 'construct', batch_lines, batch_pending)
+            # names later operations of THIS history will add, and the name lists that are asked again after every operation
+            plan = rng.sample(['ua', 'va', 'wa', 'co2_bg', 'dye_7', 'methane_bg'], 3)
+            plists = make_persistent_lists(rng, snap['names'], plan)
+            persistent_queries(ctx, rng, p, snap, list(history), 'construct', plists)
             nops = rng.choice([0, 1, 2, 3, 4, 5, 7])
             if si < 3 * len(OPS):
                 nops = max(nops, 1)
             opnames = []
             for k in range(nops):
                 force_op = OPS[si % len(OPS)] if (k == 0 and si < 3 * len(OPS)) else None
-                desc, do, (drv, payload) = gen_op(rng, p, snap, built, workdir, force_op)
+                desc, do, (drv, payload) = gen_op(rng, p, snap, built, workdir, force_op, plan)
                 rec.last = None
                 ret = None
                 with quiet():
@@ -546,6 +654,7 @@ def _run(ctx, lean_ok, workdir):
                     snap = new
                     if snap['order'] in ('increasing', 'decreasing'):
                         query_state(ctx, rng, p, snap, list(history), after + '[raised]', batch_lines, batch_pending)
+                        persistent_queries(ctx, rng, p, snap, list(history), after + '[raised]', plists)
                     continue
                 ctx.count('op-done:' + after)
                 # ---- transition correspondence: Lean step on the state before vs the state after ----
@@ -570,7 +679,12 @@ def _run(ctx, lean_ok, workdir):
                                   {'history': list(history), 'stored_depths_head': snap['table'][:3, 0].tolist(),
                                    'stored_depths_tail': snap['table'][-3:, 0].tolist(), 'z_min': snap['zmin'], 'z_max': snap['zmax']})
                     break
+                # the persistent lists FIRST (before any other query of this state touches the profile)
+                persistent_queries(ctx, rng, p, snap, list(history), after, plists)
                 query_state(ctx, rng, p, snap, list(history), after, batch_lines, batch_pending)
+            ctx.count('history')
+            if any(pl['late'] for pl in plists):
+                ctx.count('history:name-unknown-at-first-query-known-later')
             ctx.nontrivial.add((origin['source'], snap['table'].shape, tuple(opnames)))
             if si < 4:
                 ctx.sample({'source': origin['source'], 'levels': int(snap['table'].shape[0]), 'names': snap['names'],
@@ -593,6 +707,8 @@ def _run(ctx, lean_ok, workdir):
     floors += [('pred:node', 2000), ('pred:between', 2000), ('pred:clamp', 1000), ('pred:unknown-zero', 1000),
                ('pred:batch-eq-single', 1000), ('pred:short-batch', 300), ('pred:integer-depth', 300),
                ('pred:cache-fresh', 80), ('pred:z-range', 80)]
+    floors += [('pred:persistent-list', 200), ('pred:late-known-name-answered', 200),
+               ('history:name-unknown-at-first-query-known-later', int(math.ceil(0.3 * h.get('history', 0))))]
     low = [(k, h.get(k, 0), f) for k, f in floors if h.get(k, 0) < f]
     ctx.oblige('coverage floors: every source form, every operation (completed >= 3 times) and every predicate exercised (%d counters)' % len(floors),
                not low, 'below floor (counter, seen, floor): %r' % low)
